@@ -738,5 +738,6 @@ func c05Controls() []core.Mutant {
 		{Name: "scope stack no longer emptied at the start of a run", File: "vm/vm.go", Old: "\tif vm.scopes != nil {\n\t\tvm.scopes = vm.scopes[0:0]\n\t}\n", New: "", Rule: "R5.9", Construct: "scopes empty"},
 		{Name: "evaluation stack keeps its last element at the start of a run", File: "vm/vm.go", Old: "vm.stack = vm.stack[0:0]", New: "vm.stack = vm.stack[0:1]", Rule: "R5.9", Construct: "stack empty"},
 		{Name: "refactor: extract emitBinary", File: "compiler/compiler.go", Old: "\tcase \"<\":\n\t\tc.compile(node.Left)\n\t\tc.compile(node.Right)\n\t\tc.emit(OpLess)\n", New: "\tcase \"<\":\n\t\tc.emitBinary(node, OpLess)\n", Edits: [][2]string{{"func (c *compiler) MatchesNode(", "func (c *compiler) emitBinary(node *ast.BinaryNode, op byte) {\n\tc.compile(node.Left)\n\tc.compile(node.Right)\n\tc.emit(op)\n}\n\nfunc (c *compiler) MatchesNode("}}, Silent: true},
+		{Name: "operand reader shifts the high byte in 8-bit arithmetic", File: "vm/vm.go", Old: "return uint16(b0) | uint16(b1)<<8", New: "return uint16(b0 | b1<<8)", Rule: "R5.3", Construct: "vm.(VM).arg/layout"},
 	}
 }
